@@ -440,6 +440,8 @@ class Unit:
 
     def _emit_file(self, g, path, kind):
         txt = open(path, encoding="utf-8").read().rstrip("\n")
+        if kind == "prelude":
+            txt = self._complete_error_enum(txt)
         base = len(g.lines)
         rel = os.path.relpath(path, VERIF)
         label = None
@@ -469,6 +471,33 @@ class Unit:
             g.origin.append(o)
             if re.search(r"external_body|assume_specification|\bassume\s*\(|\badmit\s*\(|external_type_specification|uninterp\b|#\[verifier::external", l):
                 self.assumptions.append(dict(file=rel, line=k + 1, text=l.strip()[:160]))
+
+    _ERR_FIELDLESS = None
+
+    def _complete_error_enum(self, txt):
+        """R4-error-variants: a prelude's stand-in `pub enum IggyError { .. }` lists the variants today's extracted text uses. Every
+        FIELD-LESS variant of the real enum (sdk/src/error.rs) that it does not list is appended mechanically (on the line of the closing
+        brace, so no line number moves): an edit that returns another plain error is then decided by the clauses instead of ending as an
+        unknown name (seed C19_5). Variants with a payload are not added (their payload types are per-unit stand-ins)."""
+        m = re.search(r"pub enum IggyError \{(.*?)\}", txt, re.S)
+        if not m or self.cfg.get("unit", {}).get("error_variants", True) is False:
+            return txt
+        if Unit._ERR_FIELDLESS is None:
+            try:
+                src = open(os.path.join(X.REPO, "sdk", "src", "error.rs"), encoding="utf-8").read()
+                e = re.search(r"pub enum IggyError \{(.*?)\n\}", src, re.S)
+                Unit._ERR_FIELDLESS = re.findall(r"^\s{4}([A-Z]\w*)\s*(?:=\s*\d+)?\s*,\s*$", e.group(1), re.M) if e else []
+            except OSError:
+                Unit._ERR_FIELDLESS = []
+        listed = set(re.findall(r"\b([A-Z]\w*)\b", m.group(1)))
+        missing = [v for v in Unit._ERR_FIELDLESS if v not in listed]
+        if not missing:
+            return txt
+        body = m.group(1)
+        code = re.sub(r"//[^\n]*", "", body).rstrip()
+        sep = "" if code.endswith(",") or not code else ","
+        self._log("R4-error-variants", "IggyError", len(missing), "field-less variants of sdk/src/error.rs appended to the stand-in enum")
+        return txt[:m.end(1)] + sep + " /*R4-error-variants*/ " + ", ".join(missing) + ", " + txt[m.end(1):]
 
     def _emit_fn(self, g, sp, default_crate, smoke):
         crate = default_crate
